@@ -36,3 +36,22 @@ Theorem C05_eq_decides_value_exact : forall a b x y,
   (num_eqb a b = true <-> qi_eq x y).
 Proof. exact eq_decides_value_exact. Qed.
 Print Assumptions C05_eq_decides_value_exact.
+(* identities and inverses as representations: a + 0, 0 + a, a * 1, 1 * a are the object a;
+   a - a is Integer 0; (a + b) - b is the object a *)
+Theorem C05_add_zero_structural : forall a, num_is_exact a = true -> num_wf a = true ->
+  num_add a (NInt 0) = Ok a /\ num_add (NInt 0) a = Ok a.
+Proof. exact add_zero_structural. Qed.
+Print Assumptions C05_add_zero_structural.
+Theorem C05_mul_one_structural : forall a, num_is_exact a = true -> num_wf a = true ->
+  num_mul a (NInt 1) = Ok a /\ num_mul (NInt 1) a = Ok a.
+Proof. exact mul_one_structural. Qed.
+Print Assumptions C05_mul_one_structural.
+Theorem C05_sub_self_structural : forall a, num_is_exact a = true -> num_wf a = true ->
+  num_sub a a = Ok (NInt 0).
+Proof. exact sub_self_structural. Qed.
+Print Assumptions C05_sub_self_structural.
+Theorem C05_add_sub_cancel_structural : forall a b,
+  num_is_exact a = true -> num_is_exact b = true -> num_wf a = true -> num_wf b = true ->
+  exists ab, num_add a b = Ok ab /\ num_sub ab b = Ok a.
+Proof. exact add_sub_cancel_structural. Qed.
+Print Assumptions C05_add_sub_cancel_structural.
